@@ -1,6 +1,12 @@
 """C01 - cash is conserved across master account, portfolios and fills."""
+from fractions import Fraction as F
+
+import pandas as pd
+
 from vlib import machine
-from vlib.runner import Part
+from vlib.runner import Part, Result, Violation
+from vlib.sut import load
+from checks.c02_holdings import NAMES, T0, programs
 
 PROPERTY = 'C01'
 RULE = ('Rule-based state machine (Hypothesis stateful) over a real SimulatedBroker + SimulatedExchange + stub quotes: '
@@ -44,7 +50,58 @@ def post(info):
         return 'no fill occurred'
 
 
+def run_program(case):
+    """A Portfolio driven directly: deposits, withdrawals and fills with arbitrary commissions (flat fees larger than
+    the proceeds of a small sale included).  Cash and history against an exact ledger."""
+    q = load()
+    port = q.Portfolio(T0, portfolio_id='p')
+    cash = F(0)
+    hist = []
+    if case['cash'] > 0:
+        port.subscribe_funds(T0, case['cash'])
+        cash += F(case['cash'])
+        hist.append(('subscription', F(case['cash']), cash))
+    t = T0
+    big = F(case['cash'])
+    flags = set()
+    for i, op in enumerate(case['ops']):
+        t = t + pd.Timedelta(minutes=op[1])
+        a = NAMES[op[2]]
+        if op[0] == 'fill':
+            _, _, _, qty, price, comm = op
+            oid = ('o%d' % (i // 3)) if case.get('repeat_order_ids') else 'o%d' % i
+            port.transact_asset(q.Transaction(a, qty, t, price, oid, commission=comm))
+            cost = F(price) * qty + F(comm)
+            cash -= cost
+            hist.append(('asset_transaction', -cost, cash))
+            big = max(big, abs(cost), abs(cash))
+            if qty < 0 and cost > 0:
+                flags.add('sale_costing_more_than_its_proceeds')
+            if i % 7 == 3 and cash > 0:
+                w = float(cash) * 0.25
+                port.withdraw_funds(t, w)
+                cash -= F(w)
+                hist.append(('withdrawal', -F(w), cash))
+        else:
+            port.update_market_value_of_asset(a, op[3], t)
+        tol = 1e-9 * float(big) + 1e-12
+        if abs(port.cash - float(cash)) > tol:
+            raise Violation('step %d %s: cash %r, deposits - withdrawals - fills (price*qty + commission) = %r' % (
+                i, op, port.cash, float(cash)))
+    h = port.history
+    if len(h) != len(hist):
+        raise Violation('history has %d events, %d cash movements happened' % (len(h), len(hist)))
+    for e, (ty, amt, run) in zip(h, hist):
+        if e.type != ty:
+            raise Violation('history event %s should be a %s' % (e, ty))
+        for label, got, want in (('amount', e.credit - e.debit, amt), ('balance', e.balance, run)):
+            if abs(got - float(want)) > 0.005 + 1e-9 * float(big):
+                raise Violation('history %s %r, true value %r (event %s)' % (label, got, float(want), e))
+    nfill = sum(1 for op in case['ops'] if op[0] == 'fill')
+    return Result(sorted(flags), nontrivial=nfill >= 2 and any(op[0] == 'fill' and op[5] > 0 for op in case['ops']))
+
+
 PART = Part('histories', 'machine', run_case, machine=_machine, quick=3000, thorough=64000, quick_shards=8,
             steps=(40, 60))
 PART.new_harness = new_harness
-PARTS = [PART]
+PARTS = [PART, Part('programs', 'hyp', run_program, strategy=programs(), quick=1500, thorough=120000, quick_shards=8)]
